@@ -4,13 +4,24 @@
 //	op=tpay raw          -> ( ok payload sig sig256 nblocks ) | ( err class )   decoded tag
 //	op=cmut raw mut val  -> ( ok matches payload )   commit decoded, one exported field mutated, EncodeWithoutSignature
 //	op=tmut raw mut val  -> ( ok matches payload )
+//	op=cverify pre post where payload -> ( ok accepted ) | ( err class )   a real OpenPGP signature over payload is
+//	op=tverify pre post where payload                                      embedded (header where / inline) between
+//	                                      pre and post, the object decoded and Commit.Verify / Tag.Verify run with the
+//	                                      matching public key; extra = {raw, sig}: the object and the armored signature
 //	op=psb  raw          -> ( pos nblocks )          parseSignedBytes / countSignatureBlocks
 //	op=strip raw         -> payload                  stripHeaderSignatures
 package main
 
 import (
 	"bytes"
+	"encoding/hex"
+	"strings"
+	"sync"
 	"time"
+
+	"github.com/ProtonMail/go-crypto/openpgp"
+	"github.com/ProtonMail/go-crypto/openpgp/armor"
+	"github.com/ProtonMail/go-crypto/openpgp/packet"
 
 	"github.com/go-git/go-git/v6/plumbing"
 	"github.com/go-git/go-git/v6/plumbing/object"
@@ -37,10 +48,78 @@ func mutIdent(s *object.Signature, what string, val []byte, n int64) bool {
 	return true
 }
 
+// one throw-away OpenPGP key per harness process
+var (
+	keyOnce sync.Once
+	entity  *openpgp.Entity
+	keyRing string
+)
+
+func pgpKey() {
+	keyOnce.Do(func() {
+		cfg := &packet.Config{Algorithm: packet.PubKeyAlgoEdDSA}
+		e, err := openpgp.NewEntity("verif", "", "verif@example.com", cfg)
+		if err != nil {
+			panic(err)
+		}
+		var b bytes.Buffer
+		w, err := armor.Encode(&b, openpgp.PublicKeyType, nil)
+		if err != nil {
+			panic(err)
+		}
+		if err := e.Serialize(w); err != nil {
+			panic(err)
+		}
+		w.Close()
+		entity, keyRing = e, b.String()
+	})
+}
+
+// armored detached signature over payload, LF-terminated
+func pgpSign(payload []byte) []byte {
+	pgpKey()
+	var b bytes.Buffer
+	if err := openpgp.ArmoredDetachSign(&b, entity, bytes.NewReader(payload), nil); err != nil {
+		panic(err)
+	}
+	s := b.Bytes()
+	if !bytes.HasSuffix(s, []byte("\n")) {
+		s = append(s, '\n')
+	}
+	return s
+}
+
+// embed places an armored block as a header value (continuation lines) or inline
+func embed(where string, sig []byte) []byte {
+	if where == "inline" {
+		return sig
+	}
+	return []byte(where + " " + strings.ReplaceAll(strings.TrimSuffix(string(sig), "\n"), "\n", "\n ") + "\n")
+}
+
 func main() {
 	lib.Main(func(c lib.Case) (lib.Out, any) {
 		raw := c.B("raw")
 		switch c.S("op") {
+		case "cverify", "tverify":
+			sig := pgpSign(c.B("payload"))
+			obj := append(append(append([]byte{}, c.B("pre")...), embed(c.S("where"), sig)...), c.B("post")...)
+			extra := map[string]string{"raw": hex.EncodeToString(obj), "sig": hex.EncodeToString(sig)}
+			var err error
+			if c.S("op") == "cverify" {
+				cm := &object.Commit{}
+				if derr := cm.Decode(c02lib.Mem(plumbing.CommitObject, obj)); derr != nil {
+					return c02lib.ErrClass(derr), extra
+				}
+				_, err = cm.Verify(keyRing)
+			} else {
+				t := &object.Tag{}
+				if derr := t.Decode(c02lib.Mem(plumbing.TagObject, obj)); derr != nil {
+					return c02lib.ErrClass(derr), extra
+				}
+				_, err = t.Verify(keyRing)
+			}
+			return lib.Ok(lib.Bool(err == nil)), extra
 		case "cpay", "cmut":
 			cm := &object.Commit{}
 			if err := cm.Decode(c02lib.Mem(plumbing.CommitObject, raw)); err != nil {
